@@ -18,7 +18,9 @@ vv       correct_autocorr_quantisation with the REAL MeerKAT table on chunked da
          exact rational interpolation on the same float64 table (the only tolerance of the weights part; it concerns
          the tie of np.interp, the property does not fix these values).  The table's monotonicity is checked.
 avg      katdal.averager.average_visibilities on generated arrays, all averaging factors 1..size+2, random flag
-         patterns incl. fully flagged bins and weights summing to zero.
+         patterns incl. fully flagged bins and weights summing to zero; 127..257 baselines, an empty axis, no options.
+lookup   corrprod_to_autocorr as called on product lists of every size class (outcome, values, narrowed dtype).
+store    ChunkStoreVisFlagsWeights with every option / error branch, deleted chunk files and preselect_index.
 
 Implementation vs extracted Coq model = the tie; implementation vs extracted Coq spec = the property.
 """
@@ -29,6 +31,7 @@ import warnings
 from fractions import Fraction
 
 os.environ.setdefault('NUMBA_BOUNDSCHECK', '1')    # an index outside a block raises instead of reading garbage
+os.environ.setdefault('NUMBA_NUM_THREADS', '2')    # the prange of the averager on two threads (16 oversubscribe a shared machine)
 
 import numpy as np   # noqa: E402
 
@@ -36,14 +39,25 @@ RULE = ('kernel/vfw: 1-4 inputs-pairs lists with autocorrelations at random posi
         'products, occasionally a missing auto), autocorrelation powers +-2^e (divide) or small integers (multiply) '
         'with 0, -0, +-inf, NaN at random positions, uint8 weights 0..9, per-channel weights 2^e (rarely 0, negative, '
         'inf, NaN), independent random chunkings of the four stored arrays on all three axes, both scaling '
-        'declarations, optional Van Vleck step on a dyadic table; v4: the same through VisibilityDataV4 with CBF '
-        'attributes (n_accs, dump periods with ratios at and near .5), weights at and around half-way points of the '
-        'rounding, random selections; v3: weights / weights_channel present or absent, selected or not; vv: real '
-        'table; avg: Gaussian-integer visibilities scaled so that the weighted mean is exact in complex64, weights '
-        '2^e or small integers (also negative, summing to zero), all factors 1..size+2, flag patterns with empty, '
-        'partly and fully flagged bins.  A case is one configuration; non-trivial when it has a cross product with two '
-        'different autocorrelations and a special value or a non-unit weight (weights), a non-zero excision '
-        '(v4), more than one sample per bin and a flag (avg); distinct by the whole configuration')
+        'declarations, optional Van Vleck step on a dyadic table; kernel also called without `divide` and with a '
+        'caller-supplied `out`; lookup: corrprod_to_autocorr on empty / singleton / small / 255-256-257 / 250-330 / '
+        '700-900 product lists (dtype of the narrowed arrays changes), shuffled, duplicated, missing autos; store: the '
+        'vfw configurations through every option of ChunkStoreVisFlagsWeights (corrprods None, unscaled without corrprods, '
+        'unknown van_vleck, wrong number of corrprods, no option at all, van_vleck without corrprods), 0-3 chunk files of '
+        'vis / weights / weights_channel deleted, preselect_index on dumps and channels; v4: the same through '
+        'VisibilityDataV4 with CBF attributes (n_accs, dump periods with ratios at and near .5), weights at and around '
+        'half-way points of the rounding, random selections, lost chunks, preselect=, declaration key absent, each of the '
+        'six CBF attributes deleted or emptied / lite telstate; v3: weights / weights_channel present or absent, weight '
+        'selection requests (all, none, names, unknown names, comma strings, lists), first-stage dump mask and a '
+        'second-stage index of every form per axis (all, slice with step, integer, sorted list, mask) on one to three axes '
+        'with the class "advanced indices on two or three axes with equal counts" generated on purpose (+ two fixed corpus '
+        'cases); vv: real table; avg: Gaussian-integer visibilities scaled so that the weighted mean is exact in '
+        'complex64, weights 2^e or small integers (also negative, summing to zero), all factors 1..size+2, flag patterns '
+        'with empty, partly and fully flagged bins, 127..257 baselines (block boundaries of the kernel), an empty axis, '
+        'the call without options.  A case is one configuration; non-trivial when it has a cross product with two '
+        'different autocorrelations and a special value or a non-unit weight (weights), a lost chunk / preselection / '
+        'non-default option (store), a non-zero excision (v4), more than one sample per bin and a flag (avg); distinct by '
+        'the whole configuration')
 ASSUMPTIONS = ['float32 rounding, overflow and underflow are not modelled: generated values keep every float32 / '
                'complex64 operation exact (checked: a model value that is not a float32 is counted in '
                'coverage.inexact_skipped and not compared)',
@@ -53,7 +67,13 @@ ASSUMPTIONS = ['float32 rounding, overflow and underflow are not modelled: gener
                'float64, then complex64 storage rounds once more); monotonicity of the real table checked numerically',
                'averager: bins whose exact mean is not a float32 (or whose unweighted fall-back multiplies by the '
                'rounded float32(1/n)) are compared within 2 ulp of float32 per component; all others exactly',
-               'averager inputs are finite (NaN / infinite visibilities or weights are outside the model)']
+               'averager inputs are finite (NaN / infinite visibilities or weights are outside the model)',
+               'v3 second-stage indices are legal ones (in range, non-negative, lists strictly increasing, masks of full '
+               'length with at least one True, positive steps); the per-axis application of an index by LazyIndexer itself '
+               'is C05\'s subject, C15 checks what the weights transform makes of it end to end',
+               'weight selection strings are split at commas and stripped by the harness as _selection_to_list does',
+               'preselect_index is a pair of contiguous ranges (TelstateDataSource refuses anything else)',
+               'NUMBA_NUM_THREADS=2 (the prange of the averager on two threads), NUMBA_BOUNDSCHECK=1']
 
 warnings.simplefilter('ignore')
 logging.disable(logging.CRITICAL)
@@ -270,12 +290,17 @@ def gen_kernel(rng):
     labels, cps, info = gen_cps(rng)
     T, F = rng.randint(1, 3), rng.randint(1, 4)
     divide = rng.random() < 0.6
+    call = rng.choice(['kw', 'kw', 'kw', 'out', 'default'])
+    if call == 'default':
+        divide = True
     p_special = rng.choice([0, 0.1, 0.3])
     vis = gen_vis(rng, cps, T, F, divide, p_special)
     pw = rng.choice([0, 0.05, 0.2])
     w = [[[list(rng.choice(SPECIALS)) if rng.random() < pw else [rng.randint(-8, 40), rng.choice([0, 1, 2])]
            for _ in cps] for _ in range(F)] for _ in range(T)]
-    return dict(route='kernel', labels=labels, cps=cps, T=T, F=F, divide=divide, vis=vis, w=w)
+    # how the kernel is called: divide given, divide left out (only generated together with divide=True cases: the
+    # model takes the regenerated default), or with a caller-supplied output array
+    return dict(route='kernel', labels=labels, cps=cps, T=T, F=F, divide=divide, vis=vis, w=w, call=call)
 
 
 def gen_table(rng, pow2=False):
@@ -431,6 +456,52 @@ def compare_cx(ctx, cfg, route, impl, mres, tol_autos=None):
     return ok
 
 
+
+# --------------------------------------------------------------------------- batched model calls
+# every ctx.model() call starts the extracted model once; the cheap routes ask for all their cases in one go
+def _ckey(case):
+    import json
+    return json.dumps(case, sort_keys=True)
+
+
+def prefetch(ctx, cases):
+    cache = ctx.extra.setdefault('_c15_cache', {})
+    todo = [c for c in cases if _ckey(c) not in cache]
+    if todo and ctx.model_ok:
+        for c, o in zip(todo, ctx.model(todo)):
+            cache[_ckey(c)] = o
+
+
+def cmodel(ctx, case):
+    cache = ctx.extra.setdefault('_c15_cache', {})
+    k = _ckey(case)
+    if k in cache:
+        return cache.pop(k)
+    return ctx.model([case])[0]
+
+
+def kernel151_wire(cfg, got):
+    wl = [[[lit_wire(x) for x in cell] for cell in row] for row in cfg['w']]
+    return [151, [[] if cfg.get('call', 'kw') == 'default' else int(bool(cfg['divide'])), got[0], got[1], got[2],
+                  [[[[lit_wire(c[0]), lit_wire(c[1])] for c in cell] for cell in row] for row in cfg['vis']], wl]]
+
+
+def prefetch_kernel(ctx, cfgs):
+    from katdal.vis_flags_weights import corrprod_to_autocorr
+    cases = []
+    for cfg in cfgs:
+        cases.append(kernel_wire(cfg))
+        try:
+            arrs = corrprod_to_autocorr([(cfg['labels'][a], cfg['labels'][b]) for a, b in cfg['cps']])
+            cases.append(kernel151_wire(cfg, [x.tolist() for x in arrs]))
+        except Exception:
+            pass
+    prefetch(ctx, cases)
+
+
+def prefetch_avg(ctx, cfgs):
+    prefetch(ctx, [avg_wire(c) for c in cfgs] + [avg_api_wire(c) for c in cfgs])
+
 # --------------------------------------------------------------------------- route kernel
 def kernel_wire(cfg):
     T, F = cfg['T'], cfg['F']
@@ -439,11 +510,21 @@ def kernel_wire(cfg):
     return wire15(cfg, w=wl, wc=one, scaled=not cfg['divide'])
 
 
-def avg_wire(cfg):
+def avg_samples(cfg):
     T, F, B = cfg['T'], cfg['F'], cfg['B']
-    samples = [[[[cfg['vis'][t][f][b][0], cfg['vis'][t][f][b][1], cfg['w'][t][f][b], int(cfg['flags'][t][f][b])]
-                 for b in range(B)] for f in range(F)] for t in range(T)]
-    return [155, [T, F, B, cfg['timeav'], cfg['chanav'], int(cfg['flagav']), samples]]
+    return [[[[cfg['vis'][t][f][b][0], cfg['vis'][t][f][b][1], cfg['w'][t][f][b], int(cfg['flags'][t][f][b])]
+              for b in range(B)] for f in range(F)] for t in range(T)]
+
+
+def avg_wire(cfg):
+    """round-1 wire: per-baseline model + declarative spec of every bin."""
+    return [155, [cfg['T'], cfg['F'], cfg['B'], cfg['timeav'], cfg['chanav'], int(cfg['flagav']), avg_samples(cfg)]]
+
+
+def avg_api_wire(cfg):
+    """the function as written (baseline blocks of the regenerated size; () = the regenerated default options)."""
+    opts = [] if cfg.get('shape_kind') == 'defaults' else [cfg['timeav'], cfg['chanav'], int(cfg['flagav'])]
+    return [1510, [cfg['T'], cfg['F'], cfg['B'], opts, avg_samples(cfg)]]
 
 
 def cross_check_extraction(ctx):
@@ -455,6 +536,21 @@ def cross_check_extraction(ctx):
     cases += [[152, [4, [2, 1], [1, 2], [[10, 0], [14, 0], [7, 1], [1], []]]],
               [153, [1, 1, 0, [[[3, 0], [1, 1]], [[], [1, 0]]]]],
               [154, [[[[0, 0], [0, 0]], [[2, 0], [1, 0]], [[4, 0], [4, 0]]], [[3, 0], [1], [-1], [], [9, 1]]]]]
+    # round-2 wires: lookup, store (lost chunk + preselection), excision API, v3 request / index, averager as written
+    cases += [[156, [[[0, 1], [1, 1], [0, 0], [1, 0], [0, 0]]]], [156, [[]]], [156, [[[0, 1], [0, 0]]]],
+              [157, [[[[0, 0], [1, 1], [0, 1]]], 0, 0, [], 3,
+                     [[[[[2, 0], [0, 0]], [[4, 0], [0, 0]], [[3, 0], [1, 0]]], [[[1, 1], [0, 0]], [[8, 0], [0, 0]], [[5, 0], [0, 0]]]]],
+                     [[1], [1, 1], [2, 1]], [[0, 1, 0]],
+                     [[[[3, 0], [1, 0], [2, 0]], [[6, 0], [7, 0], [8, 0]]]], [[1], [2], [3]], [],
+                     [[[1, 1], [2, 0]]], [[1], [2]], [], [0, 1, 1, 1], [1], [1]]],
+              [157, [[], 1, -1, [], 1, [[[[[2, 0], [0, 0]]]]], [[1], [1], [1]], [], [[[[3, 0]]]], [[1], [1], [1]], [],
+                     [[[1, 1]]], [[1], [1]], [], [], [1], [1]]],
+              [158, [[1, 1, 1, 1, 1, 1], [1, 2], 4, [2, 1], 1, [[8, 0], [3, 0], [1], []]]],
+              [158, [[1, 1, 1, 1, 1, 0], [1, 2], 4, [2, 1], 1, [[8, 0]]]],
+              [159, [[7], [9, 7], 1, 0, [[[3, 0], [1, 1]], [[], [1, 0]]]]], [159, [[7], [9], 1, 1, [[[3, 0], [1, 1]]]]],
+              [1511, [1, 1, 1, [[[[1, 0]], [[2, 0]]], [[[3, 0]], [[4, 0]]]], [[[10, 0], [20, 0]], [[30, 0], [40, 0]]],
+                      [0, 1], [1, 0], [0]]]]
+    cases += [avg_api_wire(gen_avg(rng)) for _ in range(8)]
     a = ctx.model(cases)
     b = core.run_model_in_coq(cases, 'c15')
     ctx.extra['extraction_cross_checked_cases'] = len(cases)
@@ -471,7 +567,7 @@ def run_kernel(ctx, cfg):
     T, F, B = cfg['T'], cfg['F'], len(cps)
     divide = bool(cfg['divide'])
     wl = [[[lit_wire(x) for x in cell] for cell in row] for row in cfg['w']]
-    mo = ctx.model([kernel_wire(cfg)])[0]
+    mo = cmodel(ctx, kernel_wire(cfg))
     if mo == [-999]:
         ctx.disagree('route=kernel;symptom=model_rejects_case', cfg, None, mo, 'wire format error', kind='tie')
         return
@@ -503,18 +599,30 @@ def run_kernel(ctx, cfg):
                              'product %d: autocorrelation %d looked up at %d, last (a,a) is at %d' % (k, which, ai[idx[k]], want))
     vis = vis_array(cfg['vis'])
     w = np.array([[[lit_float(x) for x in cell] for cell in row] for row in cfg['w']], np.float32).reshape(T, F, B)
+    call = cfg.get('call', 'kw')
+    ctx.count('kernel_call=%s' % call)
     with np.errstate(all='ignore'):
-        out = weight_power_scale(vis, w, ai, i1, i2, divide=divide)
+        if call == 'default':
+            out = weight_power_scale(vis, w, ai, i1, i2)
+        elif call == 'out':
+            buf = np.full((T, F, B), np.float32(-7.0), np.float32)
+            out = weight_power_scale(vis, w, ai, i1, i2, buf, divide)
+            if out is not buf and not np.array_equal(out, buf, equal_nan=True):
+                ctx.disagree('route=kernel;call=out;symptom=out_not_filled', cfg, 'separate result', 'out filled',
+                             'weight_power_scale(out=...) does not fill / return the supplied array')
+        else:
+            out = weight_power_scale(vis, w, ai, i1, i2, divide=divide)
     obs = 'weights' if divide else 'unscaled'
-    compare_ext(ctx, cfg, 'kernel', obs, out, m, cfg['vis'], 'unscaled' if divide else 'scaled')
+    # (a call without `divide` is generated together with divide=True: the documented default direction)
+    compare_ext(ctx, cfg, 'kernel' if call != 'default' else 'kernel_default_call', obs, out, m, cfg['vis'],
+                'unscaled' if divide else 'scaled')
     # the kernel model alone, given the REAL lookup arrays
-    mk = ctx.model([[151, [int(divide), got[0], got[1], got[2],
-                           [[[[lit_wire(c[0]), lit_wire(c[1])] for c in cell] for cell in row] for row in cfg['vis']], wl]]])[0]
+    mk = cmodel(ctx, kernel151_wire(cfg, got))
     for t in range(T):
         for f in range(F):
             for b in range(B):
                 if same_val(out[t, f, b], model_val(mk[t][f][b]), ctx) is False:
-                    ctx.disagree('route=kernel;obs=%s;vs=kernel_model;symptom=wrong_value' % obs, cfg,
+                    ctx.disagree('route=kernel;obs=%s;vs=kernel_model;call=%s;symptom=wrong_value' % (obs, call), cfg,
                                  dict(at=[t, f, b], value=str(out[t, f, b])), str(model_val(mk[t][f][b])),
                                  'weight_power_scale differs from the kernel model on the real lookup arrays', kind='tie')
                     break
@@ -626,6 +734,285 @@ def run_vfw(ctx, cfg):
         ctx.count('auto_kind=%s' % k)
 
 
+
+# --------------------------------------------------------------------------- route lookup (corrprod_to_autocorr as called)
+ERR_NAMES = {1: 'KeyError', 2: 'ValueError', 3: 'TypeError', 4: 'AssertionError'}
+
+
+def gen_lookup(rng):
+    """product lists of every size class: empty, singleton, a few, and > 255 / > 65535-index lists (the narrowed
+    dtype changes), duplicated autos, unsorted, occasionally a missing auto."""
+    kind = rng.choice(['empty', 'single', 'small', 'small', 'u16', 'u16', 'u16edge', 'big'])
+    if kind == 'empty':
+        return dict(route='lookup', kind=kind, n_labels=0, cps=[])
+    if kind == 'single':
+        return dict(route='lookup', kind=kind, n_labels=2, cps=[rng.choice([[0, 0], [0, 1]])])
+    if kind == 'small':
+        labels, cps, info = gen_cps(rng)
+        return dict(route='lookup', kind=kind, n_labels=len(labels), cps=cps)
+    n = {'u16': rng.randint(250, 330), 'u16edge': rng.choice([255, 256, 257]), 'big': rng.randint(700, 900)}[kind]
+    autos = [[i, i] for i in range(n)]
+    cross = [[rng.randrange(n), rng.randrange(n)] for _ in range(rng.randint(0, 40))]
+    cps = autos + cross + [list(rng.choice(autos)) for _ in range(rng.randint(0, 3))]
+    if kind != 'u16edge' or rng.random() < 0.5:
+        rng.shuffle(cps)
+    if rng.random() < 0.1:
+        victim = rng.randrange(n)
+        cps = [c for c in cps if c != [victim, victim]]
+    return dict(route='lookup', kind=kind, n_labels=n, cps=cps)
+
+
+def run_lookup(ctx, cfg):
+    from katdal.vis_flags_weights import corrprod_to_autocorr
+    cps = cfg['cps']
+    names = [('m%04dh' % a, 'm%04dh' % b) for a, b in cps]
+    mo = ctx.model([[156, [cps]]])[0]
+    if mo == [-999]:
+        ctx.disagree('route=lookup;symptom=model_rejects_case', cfg, None, mo, 'wire format error', kind='tie')
+        return
+    want_err = ERR_NAMES[mo[1]] if mo[0] == 0 else None
+    try:
+        arrs = corrprod_to_autocorr(names)
+        got_err = None
+    except (KeyError, ValueError, TypeError, AssertionError) as e:
+        got_err = type(e).__name__
+    ctx.count('route=lookup')
+    ctx.count('lookup_kind=%s' % cfg['kind'])
+    ctx.count('lookup_outcome=%s' % (got_err or 'arrays'))
+    ctx.traces_validated += 1
+    ctx.note_case(cfg_key(cfg), nontrivial=got_err is None and len(cps) > 1,
+                  sample=dict(route='lookup', kind=cfg['kind'], n=len(cps), outcome=got_err or 'arrays'))
+    # the property: an answer only when every input has its autocorrelation, and then the LAST (a, a)
+    missing = any([x, x] not in cps for c in cps for x in c)
+    if got_err is None and (missing or not cps):
+        ctx.disagree('route=lookup;symptom=answers_without_auto', cfg, 'arrays', 'error',
+                     'corrprod_to_autocorr answered although an autocorrelation is missing / the list is empty')
+        return
+    if got_err != want_err:
+        ctx.disagree('route=lookup;symptom=outcome;impl=%s;model=%s' % (got_err or 'arrays', want_err or 'arrays'), cfg,
+                     got_err or 'arrays', want_err or 'arrays', 'corrprod_to_autocorr: outcome differs from the model', kind='tie')
+        return
+    if got_err is not None:
+        return
+    last = {}
+    for i, c in enumerate(cps):
+        if c[0] == c[1]:
+            last[c[0]] = i
+    ai = [int(x) for x in arrs[0]]
+    for which, arr in ((0, arrs[1]), (1, arrs[2])):
+        for k, c in enumerate(cps):
+            idx = int(arr[k])
+            if not (0 <= idx < len(ai)) or ai[idx] != last[c[which]]:
+                ctx.disagree('route=lookup;obs=index%d;vs=spec;size=%s;symptom=wrong_auto' % (which + 1, cfg['kind']), cfg,
+                             dict(k=k, index=idx, auto=ai[idx] if 0 <= idx < len(ai) else None), last[c[which]],
+                             'product %d: autocorrelation of input %d looked up at the wrong position' % (k, which + 1))
+                return
+    for nm, arr, m in zip(('auto_indices', 'index1', 'index2'), arrs, mo[1:]):
+        bits, vals = m
+        if [int(x) for x in arr] != vals:
+            ctx.disagree('route=lookup;obs=%s;vs=model;size=%s;symptom=wrong_values' % (nm, cfg['kind']), cfg,
+                         [int(x) for x in arr][:20], vals[:20], '%s differs from the model' % nm, kind='tie')
+            return
+        got_bits = arr.dtype.itemsize * 8 if arr.dtype.kind == 'u' else 0
+        if got_bits != bits:
+            ctx.disagree('route=lookup;obs=%s;symptom=dtype' % nm, cfg, str(arr.dtype), bits,
+                         '%s: dtype differs from the model of _narrow' % nm, kind='tie')
+            return
+
+
+# --------------------------------------------------------------------------- route store (constructor options, lost chunks, preselection)
+def gen_store(rng, force=None):
+    cfg = gen_vfw(rng, force)
+    cfg['route'] = 'store'
+    T, F, B = cfg['T'], cfg['F'], len(cfg['cps'])
+    r = rng.random()
+    cfg['mode'] = ('normal' if r < 0.72 else 'none' if r < 0.80 else 'none_unscaled' if r < 0.83 else 'badvv' if r < 0.87
+                   else 'wronglen' if r < 0.91 else 'default' if r < 0.95 else 'vv_none')
+    if cfg['mode'] in ('none', 'default'):
+        cfg['scaled'] = True
+        cfg['table'] = None
+    if cfg['mode'] == 'none_unscaled':
+        cfg['scaled'] = False
+        cfg['table'] = None
+    lost = {'correlator_data': [], 'weights': [], 'weights_channel': []}
+    if rng.random() < 0.55:
+        for _ in range(rng.randint(1, 3)):
+            nm = rng.choice(['correlator_data', 'correlator_data', 'weights', 'weights_channel'])
+            idx = [rng.randrange(len(c)) for c in cfg['chunks'][nm]]
+            if idx not in lost[nm]:
+                lost[nm].append(idx)
+    cfg['lost'] = lost
+    cfg['presel'] = None
+    if rng.random() < 0.35:
+        t0 = rng.randrange(T)
+        f0 = rng.randrange(F)
+        cfg['presel'] = [t0, rng.randint(1, T - t0), f0, rng.randint(1, F - f0)]
+        cfg['presel_open'] = [rng.random() < 0.3, rng.random() < 0.3]     # slice(None, stop) / slice(start, None) spelling
+    return cfg
+
+
+def _lose_chunks(tmp, cfg, info):
+    for nm, idxs in cfg['lost'].items():
+        for idx in idxs:
+            starts = [int(sum(c[:i])) for c, i in zip(info[nm]['chunks'], idx)]
+            fn = os.path.join(tmp, info[nm]['prefix'], nm, '_'.join('%05d' % s_ for s_ in starts) + '.npy')
+            if os.path.exists(fn):
+                os.remove(fn)
+
+
+def run_store(ctx, cfg):
+    import dask
+    from unittest import mock
+    from fixtures import v4
+    from katdal.vis_flags_weights import ChunkStoreVisFlagsWeights
+    cps = cfg['cps']
+    T, F, B = cfg['T'], cfg['F'], len(cps)
+    mode = cfg['mode']
+    scaled = bool(cfg['scaled'])
+    table = cfg.get('table')
+    names = [(cfg['labels'][a], cfg['labels'][b]) for a, b in cps]
+    mcps = cps
+    kw = dict(corrprods=names, stored_weights_are_scaled=scaled)
+    vvcode = 0
+    if table is not None:
+        kw['van_vleck'] = 'autocorr'
+        vvcode = 1
+    if mode in ('none', 'none_unscaled'):
+        kw['corrprods'] = None
+    elif mode == 'badvv':
+        kw['van_vleck'] = 'auto'
+        vvcode = 2
+    elif mode == 'wronglen':
+        mcps = cps[:-1] if len(cps) > 1 and cfg['T'] % 2 else cps + [cps[0]]
+        kw['corrprods'] = [(cfg['labels'][a], cfg['labels'][b]) for a, b in mcps]
+    elif mode == 'default':
+        kw = {}
+        vvcode = -1
+    elif mode == 'vv_none':
+        kw = dict(corrprods=None, stored_weights_are_scaled=scaled, van_vleck='autocorr')
+        vvcode = 1
+        if table is None:
+            table = cfg['table'] = None
+    pre = cfg.get('presel')
+    if pre is not None:
+        t0, tn, f0, fn = pre
+        op = cfg.get('presel_open', [False, False])
+        kw['preselect_index'] = (slice(None if (op[0] and t0 == 0) else t0, None if (op[1] and t0 + tn == T) else t0 + tn),
+                                 slice(f0, f0 + fn))
+        T2, F2 = tn, fn
+    else:
+        T2, F2 = T, F
+    tmp = v4.scratch_dir('c15s')
+    got_err = None
+    vis = wts = uns = None
+    rch = None
+    try:
+        store, info, arrays = build_store(cfg, tmp)
+        _lose_chunks(tmp, cfg, info)
+        try:
+            with dask.config.set(scheduler='sync'), np.errstate(all='ignore'):
+                if kw.get('van_vleck') == 'autocorr' and table is not None:
+                    xs, ys = table_arrays(table)
+                    with mock.patch('katdal.vis_flags_weights.autocorr_lookup_table', lambda levels, size=4000: (xs, ys)):
+                        vfw = ChunkStoreVisFlagsWeights(store, info, **kw)
+                        vis, wts = vfw.vis.compute(), vfw.weights.compute()
+                        uns = None if vfw.unscaled_weights is None else vfw.unscaled_weights.compute()
+                else:
+                    vfw = ChunkStoreVisFlagsWeights(store, info, **kw)
+                    vis, wts = vfw.vis.compute(), vfw.weights.compute()
+                    uns = None if vfw.unscaled_weights is None else vfw.unscaled_weights.compute()
+                rch = [list(vfw.vis.chunks[0]), list(vfw.vis.chunks[1])]
+        except (KeyError, ValueError, TypeError, AssertionError) as e:
+            got_err = type(e).__name__
+        except Exception as e:
+            ctx.disagree('route=store;mode=%s;symptom=raises;exc=%s' % (mode, type(e).__name__), cfg, repr(e)[:300], 'arrays or one of '
+                         'the four modelled exceptions', 'ChunkStoreVisFlagsWeights raised an unmodelled exception')
+            return
+    finally:
+        shutil.rmtree(tmp, ignore_errors=True)
+    ch = cfg['chunks']
+    wl = [[[[w, 0] for w in cell] for cell in row] for row in cfg['weights']]
+    wcl = [[lit_wire(x) for x in row] for row in cfg['wc']]
+    visl = [[[[lit_wire(c[0]), lit_wire(c[1])] for c in cell] for cell in row] for row in cfg['vis']]
+    lost = cfg['lost']
+    payload = [[] if (mode in ('none', 'none_unscaled', 'vv_none', 'default')) else [mcps], int(scaled), vvcode,
+               [] if table is None else table, B, visl, ch['correlator_data'], lost['correlator_data'],
+               wl, ch['weights'], lost['weights'], wcl, ch['weights_channel'], lost['weights_channel'],
+               [] if pre is None else pre, rch[0] if rch else [T2], rch[1] if rch else [F2]]
+    mo = ctx.model([[157, payload]])[0]
+    if mo == [-999]:
+        ctx.disagree('route=store;symptom=model_rejects_case', cfg, None, mo, 'wire format error', kind='tie')
+        return
+    want_err = ERR_NAMES[mo[1]] if mo[0] == 0 else None
+    ctx.count('route=store')
+    ctx.count('store_mode=%s' % mode)
+    ctx.count('store_outcome=%s' % (got_err or 'arrays'))
+    ctx.count('store_lost_chunks=%d' % sum(len(v) for v in lost.values()))
+    ctx.count('store_preselect=%s' % (pre is not None))
+    ctx.traces_validated += 1
+    n_lost = sum(len(v) for v in lost.values())
+    ctx.note_case(cfg_key(cfg), nontrivial=bool(got_err is None and (n_lost or pre is not None or mode != 'normal')),
+                  sample=dict(route='store', mode=mode, scaled=scaled, van_vleck=table is not None, lost=lost, presel=pre,
+                              outcome=got_err or 'arrays'))
+    if got_err != want_err:
+        # the property only demands: no ANSWER where the model has none (an answer with data is compared below)
+        kind = 'property' if got_err is None else 'tie'
+        ctx.disagree('route=store;mode=%s;symptom=outcome;impl=%s;model=%s' % (mode, got_err or 'arrays', want_err or 'arrays'),
+                     cfg, got_err or 'arrays', want_err or 'arrays',
+                     'ChunkStoreVisFlagsWeights(%s): outcome differs from the model' % ', '.join(sorted(kw)), kind=kind)
+        return
+    if got_err is not None:
+        return
+    if tuple(vis.shape) != (T2, F2, B) or tuple(wts.shape) != (T2, F2, B):
+        ctx.disagree('route=store;symptom=shape', cfg, list(vis.shape), [T2, F2, B], 'shape of vis / weights (preselection)')
+        return
+    m = dict(ok=True, vis=mo[1], weights=mo[2])
+    has_spec = len(mo) > 4
+    decl = 'scaled' if scaled else 'unscaled'
+    tag = 'store'
+    if (mo[3] == []) != (uns is None):
+        ctx.disagree('route=store;mode=%s;obs=unscaled;symptom=presence' % mode, cfg, uns is not None, mo[3] != [],
+                     'unscaled_weights is None / not None against the model')
+        return
+    scfg = dict(cfg, cps=mcps)
+    vis_l = [[[[lit(c.real), lit(c.imag)] for c in cell] for cell in row] for row in vis]
+    if has_spec:
+        m.update(unscaled=mo[3], spec_vis=mo[4], spec_weights=mo[5], spec_unscaled=mo[6])
+        lostsig = 'lost=%s' % ('+'.join(sorted(k[:3] for k, v in lost.items() if v)) or 'none')
+        r1 = _compare_ext_tagged(ctx, scfg, tag, 'weights', wts, m, vis_l, decl, lostsig, pre is not None)
+        r2 = _compare_ext_tagged(ctx, scfg, tag, 'unscaled', uns, m, vis_l, decl, lostsig, pre is not None)
+        compare_cx(ctx, scfg, tag, vis, m)
+    else:
+        # no corrprods: weights = stored product (model only; theorem ctor_without_corrprods), vis untouched
+        m2 = dict(m, spec_weights=mo[2], spec_vis=mo[1])
+        _compare_ext_tagged(ctx, scfg, tag, 'weights', wts, m2, vis_l, decl, 'nocorrprods', pre is not None)
+        compare_cx(ctx, scfg, tag, vis, m2)
+
+
+def _compare_ext_tagged(ctx, cfg, route, obs, impl, mres, vis_lits, decl, extra, presel):
+    """compare_ext with the loss / preselection class in the signature."""
+    ok = True
+    for side, key, kind in (('model', obs, 'tie'), ('spec', 'spec_' + obs, 'property')):
+        m = mres[key]
+        shape = (len(m), len(m[0]) if m else 0, len(m[0][0]) if m and m[0] else 0)
+        if tuple(impl.shape) != shape:
+            ctx.disagree('route=%s;obs=%s;vs=%s;symptom=shape' % (route, obs, side), cfg, list(impl.shape), list(shape),
+                         'shape of %s differs from the %s' % (obs, side), kind=kind)
+            return False
+        for t in range(shape[0]):
+            for f in range(shape[1]):
+                for b in range(shape[2]):
+                    mv = model_val(m[t][f][b])
+                    if same_val(impl[t, f, b], mv, ctx) is False:
+                        iv = impl_val(impl[t, f, b])
+                        sym = 'zero_weight' if iv == 0 else 'nan_weight' if iv == 'nan' else 'wrong_value'
+                        sig = 'route=%s;obs=%s;vs=%s;decl=%s;%s;presel=%s;symptom=%s' % (route, obs, side, decl, extra, presel, sym)
+                        ctx.disagree(sig, cfg, dict(at=[t, f, b], value=str(impl[t, f, b])), dict(at=[t, f, b], value=str(mv)),
+                                     '%s[%d,%d,%d] = %s but the %s says %s (%s stored weights, %s)'
+                                     % (obs, t, f, b, impl[t, f, b], side, mv, decl, extra), kind=kind)
+                        return False
+    return ok
+
 # --------------------------------------------------------------------------- route v4
 RATIOS = [(2.0, 0.5), (2.0, 1.0), (2.0, 2.0), (2.5, 1.0), (3.5, 1.0), (2.0, 0.75), (4.0, 1.5), (1.0, 0.25), (4.5, 1.0)]
 
@@ -661,10 +1048,32 @@ def gen_v4(rng):
         sel['pol'] = rng.choice(['hh', 'vv', 'hv', 'vh'])
     elif r < 0.55 and n_ant > 1:
         sel['ants'] = [rng.choice(ants)]
+    B_ = 2 * n_ant * (n_ant + 1)
+    drop = None
+    if rng.random() < 0.22:
+        drop = rng.choice(['lite', 'src_streams', 'empty_src', 'int_time', 'n_accs', 'corr_src_streams', 'empty_corr_src',
+                           'instrument_dev_name', 'scale_factor_timestamp'])
+    chunks_ = [compositions(rng, T), compositions(rng, F), compositions(rng, B_)]
+    wchunks_ = [compositions(rng, T), compositions(rng, F), compositions(rng, B_)]
+    lose = []
+    if rng.random() < 0.3:
+        for _ in range(rng.randint(1, 2)):
+            nm = rng.choice(['correlator_data', 'weights'])
+            chs = chunks_ if nm == 'correlator_data' else wchunks_
+            it = [nm, [rng.randrange(len(c)) for c in chs]]
+            if it not in lose:
+                lose.append(it)
+    presel = None
+    if rng.random() < 0.25:
+        t0 = rng.randrange(T)
+        f0 = rng.randrange(F)
+        presel = [t0, rng.randint(1, T - t0), f0, rng.randint(1, F - f0)]
     cfg = dict(route='v4', ants=ants, T=T, F=F, need=need, dp=dp, cdp=cdp, n_accs=n_accs, seed=seed,
+               drop_attr=drop, lose=lose, presel=presel,
+               decl_absent=(not need) and rng.random() < 0.4,      # no need_weights_power_scale key at all = scaled
+
                shuffle_bls=rng.random() < 0.6, weights=weights, wc=wc, select=sel,
-               chunks=[compositions(rng, T), compositions(rng, F), compositions(rng, B)],
-               wchunks=[compositions(rng, T), compositions(rng, F), compositions(rng, B)],
+               chunks=chunks_, wchunks=wchunks_,
                index=[rng.choice([None, 2]), rng.choice([None, 2])])
     # visibilities: generated with the shuffled order known -> build order here
     bls = v4_bls(cfg)
@@ -672,6 +1081,32 @@ def gen_v4(rng):
     cps = [[labels.index(a), labels.index(b)] for a, b in bls]
     cfg['vis'] = gen_vis(rng, cps, T, F, need, p_special)
     return cfg
+
+
+
+def _presel_dict(pre):
+    t0, tn, f0, fn = pre
+    return dict(dumps=slice(t0, t0 + tn), channels=slice(f0, f0 + fn))
+
+
+def _drop_hook(drop, decl_absent=False):
+    """telstate hook deleting (or emptying) one of the attributes _cbf_attrs needs / the weight-scaling declaration."""
+    if drop in (None, 'lite') and not decl_absent:
+        return None
+    keys = {'int_time': 'corr_int_time', 'n_accs': 'corr_n_accs', 'corr_src_streams': 'corr_src_streams',
+            'empty_corr_src': 'corr_src_streams', 'instrument_dev_name': 'feng_instrument_dev_name',
+            'scale_factor_timestamp': 'i0_scale_factor_timestamp'}
+
+    def hook(ts, cbid, stream):
+        if decl_absent:
+            ts.delete(ts.join(stream, 'need_weights_power_scale'))
+        if drop in (None, 'lite'):
+            return
+        key = ts.join(stream, 'src_streams') if drop in ('src_streams', 'empty_src') else keys[drop]
+        ts.delete(key)
+        if drop in ('empty_src', 'empty_corr_src'):
+            ts[key] = []
+    return hook
 
 
 def v4_bls(cfg):
@@ -695,15 +1130,19 @@ def run_v4(ctx, cfg):
     scaled = not cfg['need']
     wl = [[[[w, 0] for w in cell] for cell in row] for row in cfg['weights']]
     wcl = [[lit_wire(x) for x in row] for row in cfg['wc']]
-    mo = ctx.model([wire15(mcfg, w=wl, wc=wcl, scaled=scaled, bchv=cfg['chunks'][2], bchw=cfg['wchunks'][2],
-                           tch=cfg['chunks'][0], fch=cfg['chunks'][1])])[0]
-    if mo == [-999]:
-        ctx.disagree('route=v4;symptom=model_rejects_case', cfg, None, mo, 'wire format error', kind='tie')
+    pre = cfg.get('presel')
+    lose = cfg.get('lose') or []
+    drop = cfg.get('drop_attr')
+    T2, F2 = (pre[1], pre[3]) if pre else (T, F)
+    visl = [[[[lit_wire(c[0]), lit_wire(c[1])] for c in cell] for cell in row] for row in cfg['vis']]
+    payload = [[cps], int(scaled), 0, [], B, visl, cfg['chunks'], [i for (nm, i) in lose if nm == 'correlator_data'],
+               wl, cfg['wchunks'], [i for (nm, i) in lose if nm == 'weights'], wcl, [[T], [F]], [],
+               [] if pre is None else pre, [T2], [F2]]
+    mo = ctx.model([[157, payload]])[0]
+    if mo == [-999] or mo[0] != 1 or len(mo) < 7:
+        ctx.disagree('route=v4;symptom=generator_not_wellformed', cfg, None, mo[:2], 'generated case is not well-formed / wire error', kind='tie')
         return
-    m = parse15(mo, T, F, B)
-    if not (m['wf'] and m['ok']):
-        ctx.disagree('route=v4;symptom=generator_not_wellformed', cfg, None, mo[:2], 'generated case is not well-formed', kind='tie')
-        return
+    m = dict(ok=True, vis=mo[1], weights=mo[2], unscaled=mo[3], spec_vis=mo[4], spec_weights=mo[5], spec_unscaled=mo[6])
     arrays = {'correlator_data': vis_array(cfg['vis']).reshape(T, F, B),
               'weights': np.array(cfg['weights'], np.uint8).reshape(T, F, B),
               'weights_channel': np.array([[lit_float(x) for x in row] for row in cfg['wc']], np.float32).reshape(T, F)}
@@ -715,7 +1154,11 @@ def run_v4(ctx, cfg):
                                 chunks={'correlator_data': tuple(tuple(c) for c in cfg['chunks']),
                                         'weights': tuple(tuple(c) for c in cfg['wchunks'])},
                                 need_weights_power_scale=cfg['need'], int_time=cfg['dp'],
-                                cbf=(cfg['cdp'], cfg['n_accs'], 1712e6), tmp=v4.scratch_dir('c15'))
+                                cbf=None if drop == 'lite' else (cfg['cdp'], cfg['n_accs'], 1712e6), tmp=v4.scratch_dir('c15'),
+                                lose=[('sdp_l0', nm, tuple(i)) for (nm, i) in lose],
+                                telstate_hook=_drop_hook(drop, cfg.get('decl_absent')),
+                                source_kwargs=None if pre is None else dict(preselect=_presel_dict(pre)),
+                                open_kwargs=None if pre is None else dict(preselect=_presel_dict(pre)))
                 d = x.d
                 kw = {}
                 sel = cfg.get('select', {})
@@ -732,8 +1175,12 @@ def run_v4(ctx, cfg):
                 fi = list(np.nonzero(d._freq_keep)[0][s2])
                 bi = list(np.nonzero(d._corrprod_keep)[0])
                 wts = d.weights[s1, s2]
-                exc = d.excision[s1, s2]
                 apd = d.accumulations_per_dump
+                try:
+                    exc = d.excision[s1, s2]
+                    exc_err = None
+                except ValueError:
+                    exc, exc_err = None, 'ValueError'
         except Exception as e:
             ctx.disagree('route=v4;symptom=raises;exc=%s' % type(e).__name__, cfg, repr(e)[:300], 'a result',
                          'opening / reading weights or excision of a v4 data set raised')
@@ -747,8 +1194,7 @@ def run_v4(ctx, cfg):
     msel = dict(m)
     for key in ('weights', 'unscaled', 'spec_weights', 'spec_unscaled'):
         msel[key] = sub(m[key])
-    vis_sel = sub(cfg['vis'])
-    scfg = dict(mcfg, cps=[cps[b] for b in bi])
+    mvis = [[[[val_wire(model_val(c[0])), val_wire(model_val(c[1]))] for c in cell] for cell in row] for row in m['vis']]
     decl = 'scaled' if scaled else 'unscaled'
     # signature classification needs the full product list: do it on the unselected arrays
     ok = True
@@ -762,18 +1208,46 @@ def run_v4(ctx, cfg):
                if same_val(wts[i, j, k_], model_val(mm[i][j][k_]), ctx) is False]
         if bad:
             i, j, k_ = bad[0]
-            cause = cell_cause(mcfg, cfg['vis'], ti[i], fi[j], bi[k_])
+            cause = cell_cause(mcfg, mvis, ti[i], fi[j], bi[k_])
             iv = impl_val(wts[i, j, k_])
             sym = 'zero_weight' if iv == 0 else 'nan_weight' if iv == 'nan' else 'wrong_value'
-            ctx.disagree('route=v4;obs=weights;vs=%s;decl=%s;auto=%s;symptom=%s' % (side, decl, cause, sym), cfg,
+            ctx.disagree('route=v4;obs=weights;vs=%s;decl=%s;auto=%s;lost=%d;presel=%s;symptom=%s' % (side, decl, cause, len(lose), pre is not None, sym), cfg,
                          dict(at=[int(ti[i]), int(fi[j]), int(bi[k_])], value=str(wts[i, j, k_])),
                          str(model_val(mm[i][j][k_])),
                          'd.weights differs from the %s at stored position %s' % (side, [int(ti[i]), int(fi[j]), int(bi[k_])]),
                          kind=kind)
             ok = False
+    # is there an excision indexer at all (CBF attributes present)?
+    present = [int(drop not in ('lite', 'src_streams', 'empty_src')), int(drop not in ('lite', 'int_time')),
+               int(drop not in ('lite', 'n_accs')), int(drop not in ('lite', 'corr_src_streams', 'empty_corr_src')),
+               int(drop not in ('lite', 'instrument_dev_name')), int(drop not in ('lite', 'scale_factor_timestamp'))]
+    dpf, cdpf = Fraction(cfg['dp']), Fraction(cfg['cdp'])
+    ma = ctx.model([[158, [present, [cdpf.numerator, cdpf.denominator], cfg['n_accs'], [dpf.numerator, dpf.denominator], 1, []]]])[0]
+    ctx.count('v4_drop_attr=%s' % drop)
+    ctx.count('v4_declaration=%s' % ('absent' if cfg.get('decl_absent') else 'unscaled' if cfg['need'] else 'scaled'))
+    ctx.count('v4_lost_chunks=%d' % len(lose))
+    ctx.count('v4_preselect=%s' % (pre is not None))
+    m_avail = ma[0] == 1
+    m_apd = (ma[1] if m_avail else ma[2])
+    m_apd = m_apd[0] if m_apd else None
+    if (exc_err is None) == m_avail and apd != m_apd:
+        ctx.disagree('route=v4;obs=accumulations_per_dump;symptom=wrong_value', cfg, apd, m_apd,
+                     'accumulations_per_dump differs from n_accs * round_half_even(dump_period / cbf_dump_period)')
+        return
+    if (exc_err is None) != m_avail or apd != m_apd:
+        ctx.disagree('route=v4;obs=excision;drop=%s;symptom=availability' % drop, cfg,
+                     dict(excision=exc_err or 'indexer', accumulations_per_dump=apd),
+                     dict(excision='indexer' if m_avail else 'ValueError', accumulations_per_dump=m_apd),
+                     'd.excision / accumulations_per_dump: available exactly when every CBF attribute is found',
+                     kind='property' if exc_err is None else 'tie')
+        return
+    if exc_err is not None:
+        ctx.traces_validated += 1
+        ctx.note_case(cfg_key(cfg), nontrivial=True, sample=dict(route='v4', drop_attr=drop, excision='ValueError'))
+        ctx.count('route=v4')
+        return
     # excision from the model's unscaled weights
     flat = [val_wire(model_val(msel['unscaled'][i][j][k_])) for i in range(len(ti)) for j in range(len(fi)) for k_ in range(len(bi))]
-    dpf, cdpf = Fraction(cfg['dp']), Fraction(cfg['cdp'])
     me = ctx.model([[152, [cfg['n_accs'], [dpf.numerator, dpf.denominator], [cdpf.numerator, cdpf.denominator], flat]]])[0]
     k_model, A_model = me[0], me[1]
     if apd != A_model:
@@ -814,8 +1288,76 @@ def run_v4(ctx, cfg):
 
 
 # --------------------------------------------------------------------------- route v3
+def gen_axis_index(rng, n, want_fancy=None, count=None):
+    """one per-axis second-stage index on an axis of length n >= 1 as a JSON-able form:
+    ['all'] | ['slice', start, stop, step] | ['int', i] | ['list', [...]] | ['mask', [...]];
+    want_fancy forces a list / mask, count its number of kept positions."""
+    kind = rng.choice(['all', 'all', 'slice', 'slice', 'int', 'list', 'mask'])
+    if want_fancy:
+        kind = rng.choice(['list', 'mask'])
+    if kind == 'slice':
+        a = rng.choice([None, rng.randrange(n)])
+        b = rng.choice([None, rng.randint((a or 0) + 1, n + 1)])
+        return ['slice', a, b, rng.choice([None, 1, 2, 3])]
+    if kind == 'int':
+        return ['int', rng.randrange(n)]
+    if kind in ('list', 'mask'):
+        k = count if count is not None else rng.randint(1, n)
+        k = max(1, min(k, n))
+        pos = sorted(rng.sample(range(n), k))
+        if kind == 'list':
+            return ['list', pos]
+        return ['mask', [int(i in pos) for i in range(n)]]
+    return ['all']
+
+
+def gen_index3(rng, shape):
+    """second-stage index on up to three axes; the class 'advanced indices on two or three axes with the same
+    number of kept positions' (where numpy's pairwise rule would apply) is generated on purpose."""
+    T, F, B = shape
+    r = rng.random()
+    if r < 0.15:
+        return []
+    if r < 0.55:
+        k = rng.randint(1, min(T, F))
+        third = rng.random()
+        idx = [gen_axis_index(rng, T, True, k), gen_axis_index(rng, F, True, k)]
+        if third < 0.35:
+            idx.append(gen_axis_index(rng, B, True, min(k, B)))
+        elif third < 0.7:
+            idx.append(gen_axis_index(rng, B))
+        return idx
+    n_axes = rng.randint(1, 3)
+    return [gen_axis_index(rng, n) for n in shape[:n_axes]]
+
+
+def index_positions(form, n):
+    """(kept positions, axis dropped?) of one per-axis index form"""
+    if form[0] == 'all':
+        return list(range(n)), False
+    if form[0] == 'slice':
+        return list(range(n))[slice(form[1], form[2], form[3])], False
+    if form[0] == 'int':
+        return [form[1]], True
+    if form[0] == 'list':
+        return list(form[1]), False
+    return [i for i, m in enumerate(form[1]) if m], False
+
+
+def index_object(form):
+    if form[0] == 'all':
+        return slice(None)
+    if form[0] == 'slice':
+        return slice(form[1], form[2], form[3])
+    if form[0] == 'int':
+        return int(form[1])
+    if form[0] == 'list':
+        return list(form[1])
+    return np.array(form[1], bool)
+
+
 def gen_v3(rng):
-    T, F = rng.randint(2, 4), rng.randint(1, 4)
+    T, F = rng.randint(2, 5), rng.randint(1, 5)
     ants = ['m000', 'm001'][:rng.randint(1, 2)]
     n = 2 * len(ants)
     B = n * (n + 1) // 2
@@ -825,8 +1367,49 @@ def gen_v3(rng):
     wc = [[list(rng.choice(SPECIALS)) if rng.random() < p else [rng.choice([1, 2, 3, 4, 8]), rng.choice([0, 1, 2])]
            for _ in range(F)] for _ in range(T)]
     return dict(route='v3', T=T, F=F, ants=ants, have_w=rng.random() < 0.6, have_wc=rng.random() < 0.6,
-                w_uint8=rng.random() < 0.4, select_none=rng.random() < 0.25, w=w, wc=wc, seed=rng.randrange(10 ** 6),
-                keep=[rng.random() < 0.8 for _ in range(T)])
+                w_uint8=rng.random() < 0.4, w=w, wc=wc, seed=rng.randrange(10 ** 6),
+                wsel=rng.choice([None, None, None, '', 'all', 'precision', 'bogus', 'precision,bogus', 'bogus, precision',
+                                 ['bogus'], ['bogus', 'precision'], [], ['precision', 'precision']]),
+                keep=[rng.random() < 0.8 for _ in range(T)], index_seed=rng.randrange(10 ** 6))
+
+
+
+def _check_v3_index(ctx, cfg, forms, got, err, w, wc, selected, F, B):
+    """d.weights[index] against the model of the second-stage index (outer: per axis) on the selected arrays."""
+    T = w.shape[0]
+    dims = (T, F, B)
+    forms3 = list(forms) + [['all']] * (3 - len(forms))
+    pos, drop = zip(*[index_positions(f_, n) for f_, n in zip(forms3, dims)])
+    n_fancy = sum(f_[0] in ('list', 'mask') for f_ in forms3)
+    cls = 'fancy%d' % n_fancy + ('+int' if any(drop) else '')
+    eq = n_fancy >= 2 and len({len(p_) for f_, p_ in zip(forms3, pos) if f_[0] in ('list', 'mask')}) == 1
+    ctx.count('v3_index=%s%s' % (cls, ';equal_counts' if eq else ''))
+    if err is not None:
+        # every generated form is legal (in range, sorted, non-empty): an exception is a defect of the route
+        ctx.disagree('route=v3;obs=weights_indexed;index=%s;symptom=raises;exc=%s' % (cls, err), cfg, err, 'array',
+                     'd.weights[%s] raised' % (forms,), kind='tie')
+        return
+    cells_w = [[[lit_wire(lit(x)) for x in cell] for cell in row] for row in w.tolist()]
+    cells_wc = [[lit_wire(lit(x)) for x in row] for row in wc.tolist()]
+    mo = ctx.model([[1511, [int(selected), int(cfg['have_w']), int(cfg['have_wc']), cells_w, cells_wc,
+                            list(pos[0]), list(pos[1]), list(pos[2])]]])[0]
+    want_shape = tuple(len(p_) for p_, d_ in zip(pos, drop) if not d_)
+    if tuple(got.shape) != want_shape:
+        ctx.disagree('route=v3;obs=weights_indexed;index=%s;symptom=shape' % cls, cfg, list(got.shape), list(want_shape),
+                     'shape of d.weights[%s]' % (forms,))
+        return
+    full = np.asarray(got).reshape([len(p_) for p_ in pos])
+    for i in range(len(pos[0])):
+        for j in range(len(pos[1])):
+            for k in range(len(pos[2])):
+                mv = model_val(mo[i][j][k])
+                if same_val(full[i, j, k], mv, ctx) is False:
+                    ctx.disagree('route=v3;obs=weights_indexed;index=%s;equal_counts=%s;have_w=%s;have_wc=%s;symptom=wrong_value'
+                                 % (cls, eq, cfg['have_w'], cfg['have_wc']), dict(cfg, index=list(forms)),
+                                 dict(at=[i, j, k], value=str(full[i, j, k])), str(mv),
+                                 'd.weights[%s][%d,%d,%d] is not the product of the stored arrays at dump %d, channel %d, '
+                                 'product %d of the selection' % (forms, i, j, k, pos[0][i], pos[1][j], pos[2][k]))
+                    return
 
 
 def run_v3(ctx, cfg):
@@ -855,14 +1438,25 @@ def run_v3(ctx, cfg):
                 if cfg['have_wc']:
                     f['Data'].create_dataset('weights_channel', data=wc)
             d = katdal.open(fn, centre_freq=1284e6)
-            if cfg.get('select_none'):
-                d.select(weights='')
+            wsel = '' if cfg.get('select_none') else cfg.get('wsel')
+            wkw = {} if wsel is None else {'weights': wsel}
             keep = np.array(cfg['keep'], bool)
             if keep.any():
-                d.select(dumps=keep, **({'weights': ''} if cfg.get('select_none') else {}))
+                d.select(dumps=keep, **wkw)
             else:
                 keep[:] = True
+                d.select(**wkw)
             got = d.weights[:]
+            # a second-stage index on the same data set (every form, on one to three axes)
+            idx_forms, got2, err2 = None, None, None
+            if 'index_seed' in cfg or 'index' in cfg:
+                import random as _random
+                shape_sel = (int(keep.sum()), F, B)
+                idx_forms = cfg['index'] if 'index' in cfg else gen_index3(_random.Random(cfg['index_seed']), shape_sel)
+                try:
+                    got2 = d.weights[tuple(index_object(f_) for f_ in idx_forms)]
+                except (IndexError, ValueError, TypeError) as e2:
+                    err2 = type(e2).__name__
         except Exception as e:
             ctx.disagree('route=v3;symptom=raises;exc=%s;have_w=%s;have_wc=%s' % (type(e).__name__, cfg['have_w'], cfg['have_wc']),
                          cfg, repr(e)[:300], 'weights', 'opening / reading weights of a v3 file raised')
@@ -872,7 +1466,26 @@ def run_v3(ctx, cfg):
     ti = list(np.nonzero(keep)[0])
     cells = [[lit(w[t, f, b]), lit(wc[t, f])] for t in ti for f in range(F) for b in range(B)]
     cells = [[lit_wire(a), lit_wire(b)] for a, b in cells]
-    mo = ctx.model([[153, [int(not cfg.get('select_none')), int(cfg['have_w']), int(cfg['have_wc']), cells]]])[0]
+    # the request as _selection_to_list reads it (string parsing is the harness's: '' -> nothing, 'all' -> every known
+    # type, comma-separated names stripped); names are numbered for the wire
+    code = {'precision': 7, 'bogus': 9}
+    if wsel is None or wsel == 'all':
+        req, names = 1, None
+    elif isinstance(wsel, str):
+        names = [x.strip() for x in wsel.split(',')] if wsel else []
+        req = [code[x] for x in names]
+    else:
+        names = list(wsel)
+        req = [code[x] for x in names]
+    mo2 = ctx.model([[159, [[7], req, int(cfg['have_w']), int(cfg['have_wc']), cells]]])[0]
+    selected = bool(mo2[0])
+    if selected != (names is None or 'precision' in names):
+        ctx.disagree('route=v3;symptom=model_selection', cfg, selected, names, 'model of the weight selection disagrees with the request', kind='tie')
+    mo = mo2[1]
+    # the round-1 model (selected flag given) must agree with the request model
+    mo1 = ctx.model([[153, [int(selected), int(cfg['have_w']), int(cfg['have_wc']), cells]]])[0]
+    if mo1 != mo:
+        ctx.disagree('route=v3;symptom=models_differ', cfg, mo1[:4], mo[:4], 'wire_153 and wire_159 disagree', kind='tie')
     if got.shape != (len(ti), F, B):
         ctx.disagree('route=v3;symptom=shape', cfg, list(got.shape), [len(ti), F, B], 'shape of v3 weights')
         return
@@ -886,7 +1499,7 @@ def run_v3(ctx, cfg):
                 c = impl_val(wc[ti[i], f]) if cfg['have_wc'] else Fraction(1)
                 if same_val(got[i, f, b], mv, ctx) is False:
                     ctx.disagree('route=v3;obs=weights;have_w=%s;have_wc=%s;selected=%s;symptom=wrong_value'
-                                 % (cfg['have_w'], cfg['have_wc'], not cfg.get('select_none')), cfg,
+                                 % (cfg['have_w'], cfg['have_wc'], selected), cfg,
                                  dict(at=[int(ti[i]), f, b], value=str(got[i, f, b])), str(mv),
                                  'v3 weights differ from stored product (w=%s, wc=%s)' % (a, c))
                     n = -1
@@ -896,11 +1509,14 @@ def run_v3(ctx, cfg):
                 break
         if n < 0:
             break
+    if idx_forms is not None:
+        _check_v3_index(ctx, cfg, idx_forms, got2, err2, w[ti], wc[ti], selected, F, B)
     ctx.traces_validated += 1
     ctx.note_case(cfg_key(cfg), nontrivial=bool(cfg['have_w'] or cfg['have_wc']),
-                  sample=dict(route='v3', have_w=cfg['have_w'], have_wc=cfg['have_wc'], select_none=cfg.get('select_none'),
+                  sample=dict(route='v3', have_w=cfg['have_w'], have_wc=cfg['have_wc'], weights_request=wsel, index=idx_forms,
                               shape=[len(ti), F, B]))
     ctx.count('route=v3')
+    ctx.count('v3_request=%s' % ('default' if wsel is None else repr(wsel)))
     ctx.count('v3_have=%d%d' % (cfg['have_w'], cfg['have_wc']))
 
 
@@ -1008,13 +1624,27 @@ def check_real_table(ctx):
 def gen_avg(rng, force=None):
     force = force or {}
     T, F, B = rng.randint(1, 6), rng.randint(1, 6), rng.randint(1, 3)
-    timeav = force.get('timeav', rng.randint(1, T) if rng.random() < 0.85 else rng.randint(T + 1, T + 3))
-    chanav = force.get('chanav', rng.randint(1, F) if rng.random() < 0.85 else rng.randint(F + 1, F + 3))
+    shape_kind = 'small'
+    r = rng.random()
+    if r < 0.04:          # more baselines than one block of the kernel (bl_step = 128): block boundaries
+        shape_kind = 'blocks'
+        T, F, B = rng.randint(1, 2), rng.randint(1, 2), rng.choice([127, 128, 129, 130, 256, 257])
+    elif r < 0.07:        # degenerate but legal: an empty axis
+        shape_kind = 'empty_axis'
+        k = rng.randrange(3)
+        T, F, B = [0 if k == 0 else T, 0 if k == 1 else F, 0 if k == 2 else B]
+    elif r < 0.12:        # the call without averaging options
+        shape_kind = 'defaults'
+        T, F, B = rng.randint(1, 12), rng.randint(6, 17), rng.randint(1, 2)
+    timeav = force.get('timeav', rng.randint(1, max(T, 1)) if rng.random() < 0.85 else rng.randint(T + 1, T + 3))
+    chanav = force.get('chanav', rng.randint(1, max(F, 1)) if rng.random() < 0.85 else rng.randint(F + 1, F + 3))
     flagav = rng.random() < 0.5
+    if shape_kind == 'defaults':
+        timeav, chanav, flagav = 10, 8, False      # only to shape the values; the call leaves them out
     pf = rng.choice([0, 0.1, 0.4, 0.8, 1.0])
     wmode = rng.choice(['pow2', 'pow2', 'int', 'signed', 'zero'])
     flags = [[[rng.random() < pf for _ in range(B)] for _ in range(F)] for _ in range(T)]
-    if rng.random() < 0.3:          # a fully flagged dump / channel
+    if rng.random() < 0.3 and T:          # a fully flagged dump / channel
         t = rng.randrange(T)
         flags[t] = [[True] * B for _ in range(F)]
 
@@ -1027,7 +1657,7 @@ def gen_avg(rng, force=None):
             return [0, 0]
         return [rng.choice([-2, -1, 1, 2]), 0]
     w = [[[wgen() for _ in range(B)] for _ in range(F)] for _ in range(T)]
-    ta = min(timeav, T)
+    ta = max(1, min(timeav, T))
     ca = chanav
     # visibilities: Gaussian integers times the odd part of the bin's unflagged weight sum (in quarter units), so that
     # the weighted mean is exact in complex64 for most bins
@@ -1043,7 +1673,8 @@ def gen_avg(rng, force=None):
                 if rng.random() < 0.1:
                     odd = 1
                 vis[t][f][b] = [[odd * rng.randint(-16, 16), 0], [odd * rng.randint(-16, 16), 0]]
-    return dict(route='avg', T=T, F=F, B=B, timeav=timeav, chanav=chanav, flagav=flagav, vis=vis, w=w, flags=flags)
+    return dict(route='avg', T=T, F=F, B=B, timeav=timeav, chanav=chanav, flagav=flagav, vis=vis, w=w, flags=flags,
+                shape_kind=shape_kind)
 
 
 def run_avg(ctx, cfg):
@@ -1053,14 +1684,32 @@ def run_avg(ctx, cfg):
                    np.complex64).reshape(T, F, B)
     w = np.array([[[lit_float(x) for x in cell] for cell in row] for row in cfg['w']], np.float32).reshape(T, F, B)
     fl = np.array(cfg['flags'], bool).reshape(T, F, B)
-    mo = ctx.model([avg_wire(cfg)])[0]
-    if mo == [-999]:
+    defaults = cfg.get('shape_kind') == 'defaults'
+    mo, ma = cmodel(ctx, avg_wire(cfg)), cmodel(ctx, avg_api_wire(cfg))
+    if mo == [-999] or ma == [-999]:
         ctx.disagree('route=avg;symptom=model_rejects_case', cfg, None, mo, 'wire format error', kind='tie')
         return
+    ctx.count('avg_shape_kind=%s' % cfg.get('shape_kind', 'small'))
+    # tie = the function as written (wire_1510); property = the declarative bins (wire_155).  With the options left
+    # out the property fixes nothing about the factors: tie only.
+    if defaults:
+        # property side: the bins of the factors the call used, flags combined by AND (OR is optional, i.e. not the default)
+        dta, dca = ma[-1]
+        ms = ctx.model([[155, [T, F, B, dta, dca, 0, avg_samples(cfg)]]])[0]
+        mo = [ma[0]] + ([ma[2], ms[2] if ms[0] == 1 else None] if ma[0] == 1 else [])
+        cfg = dict(cfg, timeav=dta, chanav=dca, flagav=False)
+    else:
+        if mo[0] != ma[0] or (mo[0] == 1 and mo[1] != ma[2]):
+            ctx.disagree('route=avg;symptom=models_differ', cfg, 'blocked', 'per-baseline',
+                         'the blocked model (wire_1510) and the per-baseline model (wire_155) disagree', kind='tie')
+            return
     ts, fs = 1000.0 + 2.0 * np.arange(T), 1e9 + 1e6 * np.arange(F)
     try:
-        av, aw, af, at, afr = average_visibilities(vis, w, fl, ts, fs, timeav=cfg['timeav'], chanav=cfg['chanav'],
-                                                   flagav=cfg['flagav'])
+        if defaults:
+            av, aw, af, at, afr = average_visibilities(vis, w, fl, ts, fs)
+        else:
+            av, aw, af, at, afr = average_visibilities(vis, w, fl, ts, fs, timeav=cfg['timeav'], chanav=cfg['chanav'],
+                                                       flagav=cfg['flagav'])
     except ZeroDivisionError:
         if mo[0] == 1:
             ctx.disagree('route=avg;symptom=zerodivision', cfg, 'ZeroDivisionError', 'arrays', 'raised on positive factors')
@@ -1075,12 +1724,20 @@ def run_avg(ctx, cfg):
     n_bins = 0
     multi = False
     ta = min(cfg['timeav'], T)
+    mshape = tuple(ma[1])
+    if tuple(av.shape) != mshape or aw.shape != av.shape or af.shape != av.shape:
+        ctx.disagree('route=avg;vs=model;kind=%s;symptom=shape' % cfg.get('shape_kind', 'small'), cfg, list(av.shape), list(mshape),
+                     'shape of the averaged arrays (clamping of the factors, trimming of partial bins)', kind='tie')
+        return
     for side, m, kind in (('model', mo[1], 'tie'), ('spec', mo[2], 'property')):
+        if m is None:
+            continue
         shape = (len(m), len(m[0]) if m else 0, len(m[0][0]) if m and m[0] else 0)
-        exp_shape = (len(m), F // cfg['chanav'] if len(m) else av.shape[1], B if (len(m) and F // cfg['chanav']) else av.shape[2])
-        if av.shape[0] != shape[0] or (shape[0] and shape[1] and av.shape != shape) or aw.shape != av.shape or af.shape != av.shape:
+        if shape != mshape and 0 not in mshape:
             ctx.disagree('route=avg;vs=%s;symptom=shape' % side, cfg, list(av.shape), list(shape),
                          'shape of the averaged arrays (trimming of partial bins)', kind=kind)
+            continue
+        if 0 in mshape:
             continue
         done = False
         for i in range(shape[0]):
@@ -1111,15 +1768,15 @@ def run_avg(ctx, cfg):
                         nm, got, want = probs[0]
                         allflag = all(cfg['flags'][t][f][b] for t in range(T) for f in range(F)
                                       if t // min(cfg['timeav'], T) == i and f // cfg['chanav'] == j)
-                        sig = 'route=avg;obs=%s;vs=%s;flagav=%s;allflagged=%s;zero_wsum=%s;symptom=wrong_value' % (
-                            nm, side, cfg['flagav'], allflag, wv == 0)
+                        sig = 'route=avg;obs=%s;vs=%s;flagav=%s;allflagged=%s;zero_wsum=%s;block=%s;symptom=wrong_value' % (
+                            nm, side, cfg['flagav'], allflag, wv == 0, 'first' if b < 128 else 'later')
                         ctx.disagree(sig, cfg, dict(bin=[i, j, b], value=str(got)), str(want),
                                      'averaged %s of bin %s differs from the %s' % (nm, [i, j, b], side), kind=kind)
                         done = True
     # the averaged coordinates are plain means of the kept bins
-    ta = min(cfg['timeav'], T)
-    if len(at) != T // ta or len(afr) != F // cfg['chanav']:
-        ctx.disagree('route=avg;obs=coords;symptom=shape', cfg, [len(at), len(afr)], [T // ta, F // cfg['chanav']], 'averaged coordinates')
+    ta = max(1, min(cfg['timeav'], T))
+    if len(at) != mshape[0] or len(afr) != mshape[1]:
+        ctx.disagree('route=avg;obs=coords;symptom=shape', cfg, [len(at), len(afr)], list(mshape[:2]), 'averaged coordinates', kind='tie')
     ctx.traces_validated += 1
     multi = ta * cfg['chanav'] > 1 and n_bins > 0
     anyflag = any(x for row in cfg['flags'] for cell in row for x in cell)
@@ -1133,7 +1790,8 @@ def run_avg(ctx, cfg):
 
 
 # --------------------------------------------------------------------------- driver
-ROUTES = {'kernel': run_kernel, 'vfw': run_vfw, 'v4': run_v4, 'v3': run_v3, 'vv': run_vv, 'avg': run_avg}
+ROUTES = {'kernel': run_kernel, 'vfw': run_vfw, 'v4': run_v4, 'v3': run_v3, 'vv': run_vv, 'avg': run_avg,
+          'lookup': run_lookup, 'store': run_store}
 
 
 def run_case(ctx, cfg):
@@ -1164,18 +1822,28 @@ def run(ctx):
 
     def sub():
         return random.Random(ctx.rng.getrandbits(48))
-    for _ in range(ctx.scale(250, 6000)):
-        run_kernel(ctx, gen_kernel(sub()))
-    for _ in range(ctx.scale(160, 2500)):
-        run_vfw(ctx, gen_vfw(sub()))
-    for _ in range(ctx.scale(300, 8000)):
-        run_avg(ctx, gen_avg(sub()))
-    for _ in range(ctx.scale(30, 300)):
-        run_v4(ctx, gen_v4(sub()))
-    for _ in range(ctx.scale(20, 150)):
-        run_v3(ctx, gen_v3(sub()))
-    for _ in range(ctx.scale(10, 120)):
-        run_vv(ctx, gen_vv(sub()))
+    # (route, generator, quick, thorough); VERIF_C15_ROUTES=a,b restricts the run (development aid only)
+    plan = [('kernel', gen_kernel, 250, 6000), ('vfw', gen_vfw, 90, 1500), ('store', gen_store, 110, 2000),
+            ('lookup', gen_lookup, 16, 200), ('avg', gen_avg, 300, 8000), ('v4', gen_v4, 36, 320), ('v3', gen_v3, 48, 400),
+            ('vv', gen_vv, 10, 120)]
+    only = [r for r in os.environ.get('VERIF_C15_ROUTES', '').split(',') if r]
+    import time
+    secs = {}
+    batch = {'kernel': prefetch_kernel, 'avg': prefetch_avg}
+    for route, gen, nq, nt in plan:
+        t0 = time.time()
+        cfgs = [gen(sub()) for _ in range(ctx.scale(nq, nt))]
+        if only and route not in only:
+            continue
+        for i in range(0, len(cfgs), 400):
+            part = cfgs[i:i + 400]
+            if route in batch:
+                batch[route](ctx, part)
+            for cfg in part:
+                ROUTES[route](ctx, cfg)
+        secs[route] = round(time.time() - t0, 1)
+    ctx.extra.pop('_c15_cache', None)
+    ctx.extra['route_seconds'] = secs
     if ctx.tier == 'thorough':
         cross_check_extraction(ctx)
     ctx.exhaustive = False
